@@ -563,7 +563,15 @@ for c, o in zip(fp_cases, outs):
     # displace the probe first: registration must start from reset_position()
     probe.rotate(g.rotation_matrix_y(float(rng.uniform(-0.5, 0.5))))
     probe.translate(np.array([float(rng.uniform(-5e-3, 5e-3)), 0.0, float(rng.uniform(-30e-3, 5e-3))]))
-    frame = arim.Frame(c["tt"].copy(), Time(c["start"], c["dt"], c["nt"]), c["tx"], c["rx"], probe, EXAM)
+    # the examination object attached to the frame may declare a nominal couplant of its own; the velocity that
+    # converts echo times to distances is that of the `couplant` ARGUMENT (e.g. a measured value)
+    exam_ = EXAM
+    if rng.random() < 0.4:
+        nominal = arim.Material(c["c"] * float(rng.choice([0.97, 1.02, 1.5])), density=1000.0, state_of_matter="liquid")
+        exam_ = arim.BlockInImmersion(arim.Material(6300.0, 3100.0, 2700.0, "solid"), nominal,
+                                      g.points_1d_wall_z(-1e-2, 1e-2, 0.0, 3), None)
+        chk.count(B_frame_declares_other_couplant=True)
+    frame = arim.Frame(c["tt"].copy(), Time(c["start"], c["dt"], c["nt"]), c["tx"], c["rx"], probe, exam_)
     couplant = arim.Material(c["c"])
     scale = float(max(np.max(np.abs(xs_pcs)), abs(c["z0"])))
     replay = {"fn": "find_probe_loc_from_frontwall", "locations_pcs": xs_pcs, "dead_elements": c["dead"], "tx": c["tx"],
